@@ -392,25 +392,34 @@ def finish(res, level="other", explanation="", checker_cmd=None,
                 kf.setdefault(f["id"], (f, []))[1].append(i)
             else:
                 viol.append(i)
-    # floors
-    holds_keys = sorted(keystr(i["key"]) for i in res.inst if i["verdict"] == HOLDS)
+    # floors: committed set of (hashed) instance keys that were HOLDS on the reference tree
+    def hk(k):
+        return hashlib.sha1(k.encode()).hexdigest()[:10]
+    holds_keys = sorted(hk(keystr(i["key"])) for i in res.inst if i["verdict"] == HOLDS)
     floor = load_floor(res.prop)
     if write_floor:
         os.makedirs(os.path.join(VERIF, "baseline"), exist_ok=True)
         fl = floor or {}
         fl[tier] = holds_keys
         with open(os.path.join(VERIF, "baseline", "%s.floor.json" % res.prop), "w") as fh:
-            json.dump(fl, fh, indent=0, sort_keys=True)
+            json.dump(fl, fh, separators=(",", ":"), sort_keys=True)
         floor = fl
-    refuted_or_known = set(keystr(i["key"]) for i in res.inst if i["verdict"] == REFUTED)
     if floor is not None and tier in floor:
+        fset = set(floor[tier])
         have = set(holds_keys)
-        lost = [k for k in floor[tier] if k not in have and k not in refuted_or_known]
+        now = {}
+        for i in res.inst:
+            now[hk(keystr(i["key"]))] = i
+        lost = [h for h in fset if h not in have and not (h in now and now[h]["verdict"] == REFUTED)]
         if lost:
-            res.brk("%d instance(s) that were HOLDS in the committed floor are no "
-                    "longer decided, e.g. %s" % (len(lost), "; ".join(lost[:5])))
+            named = [keystr(now[h]["key"]) + " (now %s: %s)" % (now[h]["verdict"], (now[h].get("detail") or "")[:80])
+                     for h in lost if h in now]
+            res.brk("%d instance(s) that were HOLDS in the committed floor are no longer decided (%d of them no longer "
+                    "generated), e.g. %s" % (len(lost), len(lost) - len(named), "; ".join(named[:4])))
     elif floor is None and not write_floor:
         res.notes.append("no committed floor for this property yet")
+    elif floor is not None and tier not in floor:
+        res.notes.append("no committed floor for this tier")
     c = res.counts()
     decided = c[HOLDS] + c[REFUTED]
     if decided == 0 and not res.broken:
